@@ -18,6 +18,8 @@
 //   R:<i>:<t>            conflict of pool tx i (spends all of i's inputs, 1 output), fee at threshold t of the RBF rules
 //   RB:<i>:<t>           same, padded to ~3x the size of i (feerate-diagram rule rather than the fee rules decides)
 //   RS:<i>               conflict of pool tx i that also spends an output of i (must never be accepted)
+//   RD                   conflict of the first pool tx (txid order) that has a child with a free output: spends all of that
+//                        tx's inputs AND an output of its child (a descendant of what it evicts), fee 2S+10inc (must never be accepted)
 //   SB:<i>:<t>           TRUC sibling of the v3 child i (spends another output of i's parent) at threshold t
 //   PK:<ver>:<pf>:<cf>   package parent(first free coin, fee pf)+child(spends parent:0, fee cf)
 //   PE:<k>:<pf>:<cf>     ephemeral dust package: parent has a 0-value output, fee pf; child spends k=b(oth)|m(ain only)|d(ust only)
@@ -596,6 +598,28 @@ struct Sim {
             }
             if (!tx || tx->GetHash() == old.GetHash()) return a;
             a.kind = Act::SUBMIT; a.txs = {tx};
+        } else if (c == "RD") {
+            for (size_t i : s.ByTxid()) {
+                const CTransaction& old = *s.txs[i].tx;
+                for (size_t d : s.children[i]) {
+                    const CTransaction& dtx = *s.txs[d].tx;
+                    for (uint32_t k = 0; k < dtx.vout.size() && a.kind == Act::NONE; k++) {
+                        if (dtx.vout[k].scriptPubKey != OpTrueSpk() || dtx.vout[k].nValue == 0) continue;
+                        COutPoint dop(dtx.GetHash(), k);
+                        if (s.Spender(dop) >= 0) continue;
+                        std::vector<COutPoint> ins; std::vector<CAmount> vals;
+                        if (!ins_of(old, ins, vals)) continue;
+                        ins.push_back(dop); vals.push_back(dtx.vout[k].nValue);
+                        CAmount S = ModSum(s, s.Desc(i));
+                        auto tx = MkFee(ins, vals, 1, [&](int64_t vs) { return ThrCode('h', S, Incr(vs)); }, old.version);
+                        if (!tx) continue;
+                        a.target = (int)i;
+                        a.kind = Act::SUBMIT; a.txs = {tx};
+                    }
+                    if (a.kind != Act::NONE) break;
+                }
+                if (a.kind != Act::NONE) break;
+            }
         } else if (c == "SB") {
             int i = pool_idx(p[1]);
             if (i < 0) return a;
@@ -810,6 +834,7 @@ struct Sim {
             if (o.has("MC")) cand.push_back("MC:" + I);
             if (o.has("P")) { cand.push_back("P:" + I + ":+"); if (o.prio_minus) cand.push_back("P:" + I + ":-"); }
         }
+        if (o.has("RD")) cand.push_back("RD");
         if (o.has("J")) for (char f : o.child_fees) cand.push_back("J:" + S(f));
         if (o.has("PK")) for (char pf : o.pk_parent) for (char cf : o.pk_child) cand.push_back("PK:2:" + S(pf) + ":" + S(cf));
         if (o.has("PK3")) for (char pf : o.pk_parent) for (char cf : o.pk_child) cand.push_back("PK:3:" + S(pf) + ":" + S(cf));
